@@ -818,7 +818,7 @@ class SymExec:
         if isinstance(fit, tuple) and fit[:1] == ('call',) and isinstance(fit[2], tuple) and fit[2][:1] == ('attr',) and \
                 fit[2][2] in ('items', 'keys', 'values') and not fit[3] and not fit[4] and \
                 isinstance(fit[2][1], tuple) and fit[2][1][:2] == ('ref', 'modvar') and len(fit[2][1]) == 3:
-            tab_ = self.modvar_table(fit[2][1][2])
+            tab_ = self.modvar_table(fit[2][1][2]) if self._table_contained(fit[2][1][2]) else None
             if tab_ and len(tab_) <= 32 and all(not isinstance(k_, tuple) for _m, k_, _v in tab_):
                 elts_ = []
                 for _m, k_, _v in tab_:
@@ -1717,6 +1717,65 @@ class SymExec:
         vals = m.assigns.get(var, []) if m is not None else []
         return len(vals) == 1 and isinstance(vals[0], ast.Call) and isinstance(vals[0].func, ast.Name) and vals[0].func.id == 'object' \
             and not vals[0].args and not any(isinstance(n, ast.Global) and var in n.names for n in ast.walk(m.tree))
+
+    def _table_contained(self, q: str) -> bool:
+        """The module- or class-level dict is only ever read in place - subscripted, asked for items() / keys() / values() /
+        get(), tested with `in`, iterated, measured with len() - or handed to a package function that does nothing else with that
+        parameter; it is never stored, returned or passed on: nobody holds an alias through which its entries could change."""
+        cache = self.facts.__dict__.setdefault('_table_contained', {})
+        if q in cache:
+            return cache[q]
+        var = q.rpartition('.')[2]
+
+        def parent_map(tree):
+            parents = {}
+            for n in ast.walk(tree):
+                for c in ast.iter_child_nodes(n):
+                    parents[c] = n
+            return parents
+
+        def read_in_place(n, parents):
+            par = parents.get(n)
+            if isinstance(par, ast.Subscript) and par.value is n and isinstance(par.ctx, ast.Load):
+                return True
+            if isinstance(par, ast.Attribute) and par.value is n and par.attr in ('items', 'keys', 'values', 'get') and \
+                    isinstance(parents.get(par), ast.Call) and parents[par].func is par:
+                return True
+            if isinstance(par, ast.Compare) and n in par.comparators and all(isinstance(o, (ast.In, ast.NotIn)) for o in par.ops):
+                return True
+            if isinstance(par, (ast.For, ast.comprehension)) and par.iter is n:
+                return True
+            if isinstance(par, ast.Call) and isinstance(par.func, ast.Name) and par.func.id == 'len' and n in par.args:
+                return True
+            return False
+        ok = True
+        for m in self.facts.modules.values():
+            if '.ply' in m.name:
+                continue
+            parents = parent_map(m.tree)
+            for n in ast.walk(m.tree):
+                hit = (isinstance(n, ast.Name) and n.id == var) or (isinstance(n, ast.Attribute) and n.attr == var)
+                if not hit or isinstance(getattr(n, 'ctx', None), ast.Store):
+                    continue
+                if isinstance(parents.get(n), ast.alias) or read_in_place(n, parents):
+                    continue
+                par = parents.get(n)
+                # an argument of a package function that only reads that parameter in place
+                if isinstance(par, ast.Call) and n in par.args and not any(isinstance(x, ast.Starred) for x in par.args):
+                    r = self.facts.resolve_expr(m, par.func)
+                    fi_ = self.facts.functions.get(r[1]) if r and r[0] == 'fn' else None
+                    if fi_ is not None and isinstance(fi_.node, ast.FunctionDef) and not fi_.cls:
+                        idx = par.args.index(n)
+                        ps_ = fi_.node.args.posonlyargs + fi_.node.args.args
+                        if idx < len(ps_):
+                            pn = ps_[idx].arg
+                            fparents = parent_map(fi_.node)
+                            uses = [x for x in ast.walk(fi_.node) if isinstance(x, ast.Name) and x.id == pn]
+                            if all(isinstance(x.ctx, ast.Load) and read_in_place(x, fparents) for x in uses):
+                                continue
+                ok = False
+        cache[q] = ok
+        return ok
 
     def _sentinel_contained(self, q: str) -> bool:
         """The sentinel is used only as an operand of `is` / `is not` and as the value assigned to a plain local name, in its own
